@@ -396,7 +396,7 @@ class Model:
             elif r.startswith('= '):
                 r = r[2:]
                 # last field = model-only instrumentation (allocation requests)
-                if ' | ' in r:
+                if ' | ' in r and (line.startswith('RUN ') or line.startswith('AUTH ')):
                     r, self.last_allocs = r.rsplit(' | ', 1)
                 return r
             else:
@@ -417,6 +417,23 @@ class Model:
         return self.cmd('AUTH %d %s %s' % (fuel, cache_str(cache_vals, False), ' '.join(hx(s) for s in scripts)))
 
 
+_EXN_TAIL = b'Error|'.hex()
+
+
+def _exn_text_moved(line):
+    """an exception text (compared by class only: its real length is unknown to the model) sits on the
+    stack or under a cache key other than b'E'"""
+    f = line.split(' | ')
+    if len(f) < 5:
+        return False
+    if any(it.endswith(_EXN_TAIL) for it in f[3].split(',')):
+        return True
+    for ent in f[4].split(','):
+        if not ent.startswith('b45=') and _EXN_TAIL + ';' in ent.replace(']', ';') :
+            return True
+    return False
+
+
 def compare_script(model, script, cache_vals, cfg, fuel=20000):
     """returns (status, impl_line, model_line); status in agree/differ/skip-*"""
     i = impl_run_script(script, cache_vals, cfg)
@@ -427,6 +444,8 @@ def compare_script(model, script, cache_vals, cfg, fuel=20000):
         return 'skip-unmodelled', i, m
     if m == 'fuel':
         return 'skip-fuel', i, m
+    if i != m and cfg.max_item_size < 256 and (_exn_text_moved(m) or _exn_text_moved(i)):
+        return 'skip-exntext', i, m      # message length decides a size check; messages are not modelled
     return ('agree' if i == m else 'differ'), i, m
 
 
